@@ -538,6 +538,7 @@ class Configuration(_Configuration):
         self._cleared = False
 
     def _commit_reload(self) -> None:
+        self.neighbor.attach_ribs()
         self.neighbors = self.neighbor.neighbors
         # Process change detection is handled in Processes.start() which compares
         # old vs new config and only restarts processes that actually changed.
